@@ -116,6 +116,8 @@ func nearMisses(valid driver.ReqCase, base string, newID func() string) []driver
 		add(func(rc *driver.ReqCase) { rc.Body, rc.HasBody = b, true })
 	}
 	add(func(rc *driver.ReqCase) { rc.HasBody = false })
+	add(func(rc *driver.ReqCase) { rc.Chunked = true }) // the valid body, length unknown (chunked upload)
+	add(func(rc *driver.ReqCase) { rc.Chunked = true; rc.Body, rc.HasBody = "{", true })
 	// the client goes away: writes fail / the context is cancelled (generated code reports through LogError)
 	add(func(rc *driver.ReqCase) { rc.FailWrites = true; rc.Script.Random = true; rc.Script.Seed = 7 })
 	add(func(rc *driver.ReqCase) { rc.Cancelled = true })
@@ -221,6 +223,7 @@ func checkC14(c *core.Check) {
 					bs, _ := json.Marshal(dc.doc)
 					rc := valid
 					rc.ID, rc.Body, rc.HasBody = newID(), string(bs), true
+					rc.Chunked = len(g.Cases)%2 == 0
 					g.Cases = append(g.Cases, rc)
 					info[rc.ID] = rc
 				}
